@@ -40,6 +40,8 @@ type vfBackend struct {
 	maxNodes int
 	// taint tracking, one per cache built on this backend
 	taints []*vfTaint
+	// graph nodes that were forwarded but never computed (context closed first)
+	dropped int
 }
 
 // vfTaint remembers the destination rows of multi-row cache-to-cache copies in one cache's layer-0 K tensor
@@ -66,9 +68,13 @@ func (b *vfBackend) NewContext() ml.Context        { return &vfContext{b: b} }
 func (b *vfBackend) NewContextSize(int) ml.Context { return &vfContext{b: b} }
 func (b *vfBackend) CacheConfig() ml.CacheConfig   { return b.cfg }
 
+// vfContext executes like a ggml graph context: a Copy is only a node; it runs when the context is
+// computed, in the order in which the nodes were handed to Forward.  A node that is never forwarded, or a
+// context that is closed without Compute, moves no data (counted in vfBackend.dropped).
 type vfContext struct {
 	ml.Context
-	b *vfBackend
+	b       *vfBackend
+	pending []func()
 }
 
 func vfStrides(shape []int) []int {
@@ -121,13 +127,31 @@ func (c *vfContext) FromIntSlice(s []int32, shape ...int) (ml.Tensor, error) {
 	return t, nil
 }
 
-func (c *vfContext) Input() ml.Context               { return c }
-func (c *vfContext) Layer(int) ml.Context            { return c }
-func (c *vfContext) Forward(...ml.Tensor) ml.Context { return c }
-func (c *vfContext) Compute(...ml.Tensor)            {}
-func (c *vfContext) Reserve() error                  { return nil }
-func (c *vfContext) MaxGraphNodes() int              { return c.b.maxNodes }
-func (c *vfContext) Close()                          {}
+func (c *vfContext) Input() ml.Context    { return c }
+func (c *vfContext) Layer(int) ml.Context { return c }
+func (c *vfContext) Forward(ts ...ml.Tensor) ml.Context {
+	for _, t := range ts {
+		if vt, ok := t.(*vfTensor); ok && vt != nil && vt.pend != nil {
+			c.pending = append(c.pending, vt.pend)
+			vt.pend = nil
+		}
+	}
+	return c
+}
+
+func (c *vfContext) Compute(ts ...ml.Tensor) {
+	c.Forward(ts...)
+	for _, f := range c.pending {
+		f()
+	}
+	c.pending = nil
+}
+func (c *vfContext) Reserve() error     { return nil }
+func (c *vfContext) MaxGraphNodes() int { return c.b.maxNodes }
+func (c *vfContext) Close() {
+	c.b.dropped += len(c.pending)
+	c.pending = nil
+}
 
 // vfTensor is a strided view over a shared backing array (element strides).
 type vfTensor struct {
@@ -138,6 +162,7 @@ type vfTensor struct {
 	off   int
 	shape []int
 	strd  []int
+	pend  func() // graph node not yet handed to Forward (a Copy): runs at Compute
 }
 
 func (t *vfTensor) Dim(n int) int {
@@ -232,28 +257,31 @@ func (t *vfTensor) Copy(ctx ml.Context, t2 ml.Tensor) ml.Tensor {
 	if n != vfTotal(dst.shape) {
 		panic(fmt.Sprintf("vf: copy size mismatch %v -> %v", t.shape, dst.shape))
 	}
-	src := t.Floats()
-	// multi-row cache-to-cache move inside a layer-0 K tensor: remember destination rows
-	if b := t.b.taintOf(t.data); b != nil && len(dst.data) > 0 && &dst.data[0] == &t.data[0] &&
-		len(t.shape) == 1 && len(dst.shape) == 1 {
-		row := vfKHead * vfHeads
-		b.moves++
-		if n > row {
-			b.multiRow++
-			for r := 0; r < n/row; r++ {
-				b.tainted[dst.off/row+r] = true
+	node := &vfTensor{b: dst.b, dtype: dst.dtype, data: dst.data, off: dst.off, shape: dst.shape, strd: dst.strd}
+	node.pend = func() {
+		src := t.Floats() // the source is read when the node executes
+		// multi-row cache-to-cache move inside a layer-0 K tensor: remember destination rows
+		if b := t.b.taintOf(t.data); b != nil && len(dst.data) > 0 && &dst.data[0] == &t.data[0] &&
+			len(t.shape) == 1 && len(dst.shape) == 1 {
+			row := vfKHead * vfHeads
+			b.moves++
+			if n > row {
+				b.multiRow++
+				for r := 0; r < n/row; r++ {
+					b.tainted[dst.off/row+r] = true
+				}
+			} else if b.tainted[t.off/row] {
+				// a single-row move carries a suspect row along
+				b.tainted[dst.off/row] = true
+			} else {
+				delete(b.tainted, dst.off/row)
 			}
-		} else if b.tainted[t.off/row] {
-			// a single-row move carries a suspect row along
-			b.tainted[dst.off/row] = true
-		} else {
-			delete(b.tainted, dst.off/row)
+		}
+		for k := 0; k < n; k++ {
+			dst.data[dst.addr(k)] = src[k]
 		}
 	}
-	for k := 0; k < n; k++ {
-		dst.data[dst.addr(k)] = src[k]
-	}
-	return dst
+	return node
 }
 
 // vfShift is the shiftFn: returns a fresh tensor equal to key with the offset added to the
@@ -1057,6 +1085,7 @@ func (r *vfRun) fwdOK(opi int, op vfOp, ctx ml.Context) string {
 		vt, _ := ctx.FromFloatSlice(vdata, vfVHead, vfHeads, n)
 		r.api.Put(ctx, kt, vt)
 	}
+	ctx.Compute() // the runner computes the graph of the pass once it is built
 	if r.taint.k0 == nil {
 		r.taint.k0 = c.keys[r.layers[0]].(*vfTensor).data
 	}
@@ -1249,6 +1278,7 @@ func (r *vfRun) reservePost(opi int, op vfOp, ctx ml.Context, err error, before 
 	}
 	r.reserve = true
 	defer func() { r.reserve = false }()
+	ctx.Compute() // (only the mask's dtype conversion is in the graph)
 	return r.observe(opi, op.toks, ctx, nil, true)
 }
 
@@ -1287,6 +1317,7 @@ func (r *vfRun) step(opi int, op vfOp) {
 	case 'E':
 		ctx := r.backend.NewContext()
 		c.SetCausal(ctx, CausalOptions{Except: op.ex})
+		ctx.Compute()
 		if r.passOp >= 0 {
 			x = "E" + r.observeE(opi, op, ctx)
 			fwdOK = true
@@ -1317,6 +1348,10 @@ func (r *vfRun) observeE(opi int, op vfOp, ctx ml.Context) string {
 }
 
 func (r *vfRun) finish(opi int, op vfOp, x string, fwdOK bool) {
+	if r.backend.dropped > 0 && !r.shadow.unsound {
+		// a copy the cache put into a graph (defrag move, RoPE re-shift, Put, mask conversion) was never executed
+		r.l2("graph-node-never-computed", fmt.Sprintf("after op %d (%s): %d forwarded node(s) dropped by Close without Compute", opi, op.String(), r.backend.dropped))
+	}
 	if op.kind != 'Q' {
 		r.stateCheck(opi, op.String())
 	}
@@ -1520,6 +1555,7 @@ func (wr *vfWRun) step(opi int, op vfOp) {
 			wr.w.SetLayerType(i)
 			wr.w.UnderlyingCache().(*Causal).SetCausal(ctx, CausalOptions{Except: op.ex})
 		}
+		ctx.Compute()
 		if wr.views[0].passOp >= 0 {
 			for i, v := range wr.views {
 				details[i] = v.observeE(opi, op, ctx)
@@ -2148,6 +2184,7 @@ func vfEncExec(out *zzverif.Out, permV bool, ops []vfEncOp) {
 				c.Put(ctx, kt, vt)
 				last[l] = o.a
 			}
+			ctx.Compute()
 			if !reserve {
 				cached, pos = true, curPos
 			}
